@@ -56,7 +56,8 @@ Merged(choice) == [c \in (DOMAIN args) \cup {p[1] : p \in cells} |->
 Choices == {f \in [{p[1] : p \in cells} -> Values] : \A c \in DOMAIN f : <<c, f[c]>> \in cells}
 
 \* value computed by the instance for coord c under arguments a
-RECURSIVE EvI(_, _)
+RECURSIVE EvI(_, _), SumI(_, _)
+SumI(S, a) == IF S = {} THEN Num(0) ELSE LET x == CHOOSE y \in S : TRUE IN Arith("add", EvI(x, a), SumI(S \ {x}, a))
 EvI(c, a) ==
   LET orig == IF c \notin DOMAIN WB THEN Blank
               ELSE LET f == WB[c] IN
@@ -65,6 +66,7 @@ EvI(c, a) ==
                      [] f.op = "addk"  -> Arith("add", EvI(f.a, a), Num(f.b))
                      [] f.op = "mulk"  -> Arith("mul", EvI(f.a, a), Num(f.b))
                      [] f.op = "kdiv"  -> Arith("div", Num(f.a), EvI(f.b, a))
+                     [] f.op = "wcol"  -> SumI({x \in AllCoords : Pos[x][1] = f.s /\ Pos[x][2] = f.col}, a)
   IN IF Variant \in {"fixed", "eager_sizes"}
      THEN (IF c \in DOMAIN a THEN OvVal(a[c]) ELSE orig)
      ELSE (IF orig.k = "err" THEN Err                      \* eager default: the exception escapes
